@@ -113,6 +113,10 @@ func c13Seeds() []c13Seed {
 			ext, ctype, body, bk = ".vcf", "text/vcard", cardBody, "vcard"
 			query, multiget = c13CardQuery, c13CardMultiget
 		}
+		// discovery entry point
+		for _, m := range []string{"GET", "PROPFIND", "OPTIONS"} {
+			out = append(out, c13Seed{Handler: kind, Req: harness.Req{Method: m, Path: "/.well-known/" + kind}})
+		}
 		paths := []string{"/", "/u/", "/u/c/", "/u/c/k1/", "/u/c/k3", "/u/c/k1/o1" + ext, "/u/c/k1/new" + ext}
 		for _, p := range paths {
 			for _, m := range []string{"OPTIONS", "GET", "HEAD", "DELETE", "FOO"} {
@@ -149,6 +153,18 @@ func c13Seeds() []c13Seed {
 		q := `<?xml version="1.0"?><C:addressbook-query xmlns:D="DAV:" xmlns:C="urn:ietf:params:xml:ns:carddav"><D:prop><D:getetag/>` + ad + `</D:prop><C:filter><C:prop-filter name="FN"/></C:filter></C:addressbook-query>`
 		out = append(out, c13Seed{Handler: "carddav", BodyKind: "xml", NeedsXML: true, Req: harness.Req{Method: "REPORT", Path: "/u/c/k1/", Header: with(xmlH(), "Depth", "1"), Body: q}})
 	}
+	// the reports under the other Depth values (a Depth-dependent shortcut must not skip validation)
+	for _, d := range []string{"0", "infinity"} {
+		out = append(out, c13Seed{Handler: "caldav", BodyKind: "xml", NeedsXML: true, Req: harness.Req{Method: "REPORT", Path: "/u/c/k1/", Header: with(xmlH(), "Depth", d), Body: c13CalQuery}})
+		out = append(out, c13Seed{Handler: "caldav", BodyKind: "xml", NeedsXML: true, Req: harness.Req{Method: "REPORT", Path: "/u/c/k1/", Header: with(xmlH(), "Depth", d), Body: c13CalMultiget}})
+		out = append(out, c13Seed{Handler: "carddav", BodyKind: "xml", NeedsXML: true, Req: harness.Req{Method: "REPORT", Path: "/u/c/k1/", Header: with(xmlH(), "Depth", d), Body: c13CardQuery}})
+		out = append(out, c13Seed{Handler: "carddav", BodyKind: "xml", NeedsXML: true, Req: harness.Req{Method: "REPORT", Path: "/u/c/k1/", Header: with(xmlH(), "Depth", d), Body: c13CardMultiget}})
+	}
+	// a multiget that names no resource at all
+	out = append(out, c13Seed{Handler: "caldav", BodyKind: "xml", NeedsXML: true, Req: harness.Req{Method: "REPORT", Path: "/u/c/k1/", Header: with(xmlH(), "Depth", "1"),
+		Body: `<?xml version="1.0"?><C:calendar-multiget xmlns:D="DAV:" xmlns:C="urn:ietf:params:xml:ns:caldav"><D:prop><D:getetag/><C:calendar-data><C:comp name="VCALENDAR"><C:allprop/><C:allcomp/></C:comp></C:calendar-data></D:prop></C:calendar-multiget>`}})
+	out = append(out, c13Seed{Handler: "carddav", BodyKind: "xml", NeedsXML: true, Req: harness.Req{Method: "REPORT", Path: "/u/c/k1/", Header: with(xmlH(), "Depth", "1"),
+		Body: `<?xml version="1.0"?><C:addressbook-multiget xmlns:D="DAV:" xmlns:C="urn:ietf:params:xml:ns:carddav"><D:prop><D:getetag/><C:address-data><C:prop name="FN"/></C:address-data></D:prop></C:addressbook-multiget>`}})
 	// a query that asks for no results at all (valid; the filter must still be a filter)
 	out = append(out, c13Seed{Handler: "carddav", BodyKind: "xml", NeedsXML: true, Req: harness.Req{Method: "REPORT", Path: "/u/c/k1/", Header: with(xmlH(), "Depth", "1"),
 		Body: strings.Replace(c13CardQuery, "<C:nresults>5</C:nresults>", "<C:nresults>0</C:nresults>", 1)}})
